@@ -35,7 +35,7 @@ FAIL, SEEN = [], {"pairs": 0, "pairs_equal": 0, "incomplete": 0, "accumulate": 0
 # which clause a builder call addresses (the specification's reading of "different clauses")
 CLAUSE = {"select": "select", "from_": "from", "where": "where", "prewhere": "prewhere", "join_on": "join", "join_using": "join", "groupby": "groupby", "having": "having",
           "orderby": "orderby", "limit": "limit", "offset": "offset", "distinct": "distinct", "force_index": "force_index", "use_index": "use_index", "for_update": "for_update",
-          "with_": "with", "with_totals": "with_totals", "where_foreign": "where", "prewhere_foreign": "prewhere", "columns": "columns", "insert": "values", "set": "set", "on_conflict": "conflict", "do_update": "conflict", "do_nothing": "conflict"}
+          "with_": "with", "with_totals": "with_totals", "select_aliased": "select", "orderby_name": "orderby", "groupby_name": "groupby", "where_foreign": "where", "prewhere_foreign": "prewhere", "columns": "columns", "insert": "values", "set": "set", "on_conflict": "conflict", "do_update": "conflict", "do_nothing": "conflict"}
 # pairs of different clauses that are known NOT to commute (listed findings / documented features)
 KNOWN_PAIRS = {frozenset(("where", "from_")): "C13-where-before-from", frozenset(("prewhere", "from_")): "C13-where-before-from",
                frozenset(("where", "on_conflict")): "C13-where-before-on-conflict"}
@@ -57,6 +57,10 @@ def setters(t, u):
         "with_": (lambda q: q.with_(P.Query.from_(P.Table("base")).select("x"), "c1"), lambda q: q.with_(P.Query.from_(P.Table("base2")).select("y"), "c2")),
         "prewhere": (lambda q: q.prewhere(t.p == 1), lambda q: q.prewhere(t.q == 2)),
         "with_totals": (lambda q: q.with_totals(), None),
+        # a select alias and ORDER BY / GROUP BY keys given as the string that spells it (resolved at render time, not at call time)
+        "select_aliased": (lambda q: q.select(t.a.as_("xal")), None),
+        "orderby_name": (lambda q: q.orderby("xal"), None),
+        "groupby_name": (lambda q: q.groupby("xal"), None),
         # criteria that refer to a table outside the statement's sources (a correlated reference)
         "where_foreign": (lambda q: q.where(t.k == P.Table("outer_t").k), None),
         "prewhere_foreign": (lambda q: q.prewhere(t.m == P.Table("outer_t").m), None),
@@ -140,6 +144,20 @@ def cases(run, rng):
                "into-only": lambda: qc.into(t), "into-columns": lambda: qc.into(t).columns("a", "b"), "update-no-set": lambda: qc.update(t).where(t.a == 1),
                "update-no-set-from-join": lambda: qc.update(t).from_(u).join(u).on(t.a == u.a).where(t.a == 1).orderby(t.a).limit(1),
                "joined-no-select": lambda: qc.from_(t).join(u).on(t.a == u.a).groupby(t.a)}
+        # every call that decorates a statement without completing it, alone and in pairs, on every incomplete base
+        deco = {"where": lambda q: q.where(t.a == 1), "having": lambda q: q.having(t.a == 1), "groupby": lambda q: q.groupby(t.a),
+                "orderby": lambda q: q.orderby(t.a), "limit": lambda q: q.limit(2), "offset": lambda q: q.offset(1), "distinct": lambda q: q.distinct(),
+                "join": lambda q: q.join(u).on(t.a == u.a), "with": lambda q: q.with_(qc.from_(u).select(u.a), "c0"), "for_update": lambda q: q.for_update(),
+                "force_index": lambda q: q.force_index("i0"), "on_conflict": lambda q: q.on_conflict("a"), "do_nothing": lambda q: q.on_conflict("a").do_nothing(),
+                "do_update": lambda q: q.on_conflict("a").do_update("b", 1), "returning": lambda q: q.returning("id"), "returning-term": lambda q: q.returning(t.a),
+                "top": lambda q: q.top(3), "modifier": lambda q: q.modifier("SQL_CALC_FOUND_ROWS"), "distinct_on": lambda q: q.distinct_on("a"),
+                "columns": lambda q: q.columns("c"), "as": lambda q: q.as_("al"), "prewhere": lambda q: q.prewhere(t.a == 1)}
+        for bname in list(inc):
+            for d1, f1 in deco.items():
+                inc["%s+%s" % (bname, d1)] = (lambda bname=bname, f1=f1: f1(inc[bname]()))
+                if d1 in ("returning", "on_conflict", "do_nothing", "do_update", "with", "join"):
+                    for d2, f2 in deco.items():
+                        inc["%s+%s+%s" % (bname, d1, d2)] = (lambda bname=bname, f1=f1, f2=f2: f2(f1(inc[bname]())))
         for name, f in inc.items():
             try:
                 q = f()
@@ -159,7 +177,8 @@ def cases(run, rng):
     # ---- EXHAUSTIVE ordered pairs of clause setters on base states
     for qc in (QUERY_CLASSES if run.tier == "thorough" else [P.Query, MySQLQuery, PostgreSQLQuery, MSSQLQuery]):
         cname = type(qc._builder()).__name__
-        bases = {"from": lambda t, u: qc.from_(t).select(t.z), "from-where": lambda t, u: qc.from_(t).select(t.z).where(t.y == 0).groupby(t.z).orderby(t.z)}
+        bases = {"from": lambda t, u: qc.from_(t).select(t.z), "from-where": lambda t, u: qc.from_(t).select(t.z).where(t.y == 0).groupby(t.z).orderby(t.z),
+                 "from-two": lambda t, u: qc.from_(t).from_(P.Table("v2")).select(t.z)}     # two sources: references are written qualified
         for bn, bf in bases.items():
             t0, u0 = P.Table("t"), P.Table("u")
             names = list(setters(t0, u0))
@@ -284,7 +303,7 @@ def check(run: core.Run):
         what="well-formedness", extra_violations=LazyViolations(), extra_cov=lazy_cov, extra_targets=["Ref/Clauses.v", "Gen/Footprints.v"],
         rule="(i,ii) random statements of every kind (SELECT with every clause, INSERT, UPDATE, DELETE, upsert, set operations, sub-queries, CTEs) x 6 classes and 7 DDL statements: "
              "Ref.Clauses.wellformed in Coq on the implementation's text (lexes without comment, brackets balanced, depth-0 clause heads form a sub-sequence without repetition of the class's "
-             "clause order). (iii) 8 incomplete builder shapes x 6 classes x 2 contexts + DDL / LOAD builders render ''. (iv) EXHAUSTIVE: all ordered pairs of 16 clause-setting calls that "
+             "clause order). (iii) 8 incomplete builder bases, each alone and decorated by every non-completing call (and pairs of them) x 6 classes x 2 contexts + DDL / LOAD builders render ''. (iv) EXHAUSTIVE: all ordered pairs of 16 clause-setting calls that "
              "address different clauses x 2 base states x classes: both orders must give the same SQL (audits the regenerated footprint table: a pair it calls non-interfering must "
              "commute); repeated calls accumulate in call order (8 methods + columns / insert / set). (v) SQLite parses the DDL statements (supporting).",
         assumptions=["the footprint table describes the builder methods (may-analysis of attribute reads / writes over the MRO, audited by the pair sweep)",
